@@ -189,7 +189,7 @@ class CheckAutoPing(Contract):
         return out
 
 
-@contract('lomond.session.WebsocketSession._send_pong', serves=['C14', 'C09', 'C08', 'C01'])
+@contract('lomond.session.WebsocketSession._send_pong', serves=['C14', 'C09', 'C08', 'C01', 'C18'])
 class SendPongInternal(Contract):
     """one Pong with the event's payload when the connection is open, nothing otherwise; never
     raises (a refused or failed write is dropped silently)"""
@@ -238,7 +238,7 @@ class SendPongInternal(Contract):
             from pyvc.contracts import calls_since
             cs = calls_since(ip, old, 'WebSocket.send_pong')
             out.append(('send_pong-is-called-exactly-once-with-the-pings-payload',
-                        BoolVal(len(cs) == 1 and cs[0].data is st.get(a.event, 'data')), ('C14',)))
+                        BoolVal(len(cs) == 1 and cs[0].data is st.get(a.event, 'data')), ('C14', 'C18')))   # C18: the reply is attempted NOW, in this cycle
         return out
 
 
